@@ -10,6 +10,7 @@ macro_rules! dispatch {
     ($id:expr, $f:ident, $($arg:expr),*) => {
         match $id {
             "C01" => fw::$f::<props::c01::C01>($($arg),*),
+            "C04" => fw::$f::<props::c04::C04>($($arg),*),
             "C17" => fw::$f::<props::c17::C17>($($arg),*),
             "C18" => fw::$f::<props::c18::C18>($($arg),*),
             other => {
